@@ -102,8 +102,11 @@ package templ
 //@   assert {C13} before GetChildren().Render#1: slot() == nil
 //@   ensures {C13} implies(err == nil, slot() == nil)
 
+//@ lemma script_open_nonce(n) [C01]: inL(n, HTML_ESCAPED) ==> inL(cat("<script nonce=\"", n, "\">"), SCRIPT_OPEN) by reglang
 //@ func writeScriptHeader [C10, C01]
 //@   modifies doc(w), failedDuring
+//@   ensures {C01} implies(err == nil, inL(appended(w), SCRIPT_OPEN))
+//@   use {C01} exit: script_open_nonce(html.EscapeString(nonce))
 //@   ensures isPrefix(old(sink(w)), sink(w))
 //@   ensures implies(err == nil, isPrefix(old(doc(w)), doc(w)) && failedDuring == old(failedDuring))
 //@   ensures implies(err != nil, failedDuring)
@@ -112,8 +115,17 @@ package templ
 //@ func (ComponentScript) Render [C10]
 //@   implements Component.Render
 
-//@ func (JSONScriptElement) Render [C10]
+//@ lemma opt_id(e) [C01]: inL(e, HTML_ESCAPED) ==> inL(cat(" id=\"", e, "\""), OPT_ID_ATTR) by reglang
+//@ lemma opt_type(e) [C01]: inL(e, HTML_ESCAPED) ==> inL(cat(" type=\"", e, "\""), OPT_TYPE_ATTR) by reglang
+//@ lemma opt_nonce(e) [C01]: inL(e, HTML_ESCAPED) ==> inL(cat(" nonce=\"", e, "\""), OPT_NONCE_ATTR) by reglang
+//@ lemma json_script_el(a, b, c, d) [C01]: inL(a, OPT_ID_ATTR) && inL(b, OPT_TYPE_ATTR) && inL(c, OPT_NONCE_ATTR) && inL(d, JSON_HTMLSAFE) ==> inL(cat("<script", a, b, c, ">", d, "\n</script>"), JSON_SCRIPT_EL) by reglang
+//@ func (JSONScriptElement) Render [C10, C01]
 //@   implements Component.Render
+//@   ensures {C01} implies(err == nil, inL(appended(w), JSON_SCRIPT_EL))
+//@   use {C01} exit: opt_id(html.EscapeString(j.ID))
+//@   use {C01} exit: opt_type(html.EscapeString(j.Type))
+//@   use {C01} exit: opt_nonce(html.EscapeString(nonce))
+//@   use {C01} exit: json_script_el(ite(j.ID != "", cat(" id=\"", html.EscapeString(j.ID), "\""), ""), ite(j.Type != "", cat(" type=\"", html.EscapeString(j.Type), "\""), ""), ite(nonce != "", cat(" nonce=\"", html.EscapeString(nonce), "\""), ""), json(j.Data))
 
 //@ func ToGoHTML [C10]
 //@   requires c != nil
@@ -197,3 +209,26 @@ package templ
 //@ func JSUnsafeFuncCall [C03]
 //@   ensures inL(result.Call, DQ_ATTR_SAFE)
 //@   use return.1: html_attr_safe(html.EscapeString(string(js)))
+
+// Spread attributes: on success the bytes appended are a run of  " name"  /  " name=\"value\""  items whose
+// names and values are HTML-escaped, i.e. every value is one attribute value for the tokenizer.
+//@ lemma attr_kv(x, k, v) [C01]: inL(x, ATTR_SEQ) && inL(k, HTML_ESCAPED) && inL(v, HTML_ESCAPED) ==> inL(cat(x, " ", k, "=\"", v, "\""), ATTR_SEQ) by reglang
+//@ lemma attr_k(x, k) [C01]: inL(x, ATTR_SEQ) && inL(k, HTML_ESCAPED) ==> inL(cat(x, " ", k), ATTR_SEQ) by reglang
+//@ spec appended(w) = sub(doc(w), len(old(doc(w))), len(doc(w)))
+
+//@ func RenderAttributes [C01, C10]
+//@   modifies doc(w), failedDuring
+//@   ensures isPrefix(old(sink(w)), sink(w))
+//@   ensures implies(err == nil, isPrefix(old(doc(w)), doc(w)) && failedDuring == old(failedDuring))
+//@   ensures {C01} implies(err == nil, inL(appended(w), ATTR_SEQ))
+//@   ensures implies(err != nil, failedDuring)
+//@   ensures implies(old(failedDuring), failedDuring)
+//@   loop 1 invariant isPrefix(old(doc(w)), doc(w)) && failedDuring == old(failedDuring)
+//@   loop 1 invariant {C01} inL(appended(w), ATTR_SEQ)
+//@   use {C01} before writeStrings#1: attr_kv(appended(w), arg1[1], arg1[3])
+//@   use {C01} before writeStrings#2: attr_kv(appended(w), arg1[1], arg1[3])
+//@   use {C01} before writeStrings#3: attr_k(appended(w), arg1[1])
+//@   use {C01} before writeStrings#4: attr_k(appended(w), arg1[1])
+//@   use {C01} before writeStrings#5: attr_kv(appended(w), arg1[1], arg1[3])
+//@   use {C01} before writeStrings#6: attr_k(appended(w), arg1[1])
+//@   use {C01} before writeStrings#7: attr_k(appended(w), arg1[1])
